@@ -19,6 +19,16 @@
     E  shipped schemes on all substituted ethenes R1R2C=CR3R4 over
        {H, Me, Et, tBu}, with none / E / Z stereo marks where the bond can
        carry them (97 molecules).
+(d) fourth wave (domains/w4_c02.py), same oracle:
+    Z  shipped schemes on six-membered rings written position by position:
+       ring atoms over {C, N}^6 x both Kekule phases + aromatic spelling
+       (192), the all-carbon ring x ring bonds over {single, double}^6 (64),
+       one methyl on every carbon position of every {C, N}^6 Kekule ring
+       (384); thorough adds ring atoms over {C, N, O}^6 x the 18 ring-bond
+       words without adjacent double bonds (those RDKit accepts).  Every
+       constitution therefore occurs with each ring atom written first and in
+       both directions, i.e. with the hetero atom / the odd bond at every
+       position of the ring the Benson perception step walks over.
 Oracle: models/schemeref.py (independent scheme interpreter over ringref).
 """
 import os
@@ -29,6 +39,7 @@ from ..models import schemeref as SR
 from ..domains import schemes as SD
 from ..domains import libs
 from ..domains import w3_c02 as W3
+from ..domains import w4_c02 as W4
 
 LEVEL = 'exploration'
 BOUND = {
@@ -41,13 +52,21 @@ BOUND = {
              'with the sp3-C and H patterns) x 3 remap sources x 7 remap '
              'shapes x 4 descriptor variants (672 schemes) on M(2)+8; the 6 '
              'distinct scheme files on the 97 substituted ethenes over '
-             '{H, Me, Et, tBu} x {no, E, Z} stereo marks',
+             '{H, Me, Et, tBu} x {no, E, Z} stereo marks; fourth wave: the 6 '
+             'distinct scheme files on 638 six-ring spellings = ring atoms '
+             '{C, N}^6 x 2 Kekule phases + aromatic spelling (192), all-carbon '
+             'ring x ring bonds {single, double}^6 (64), one methyl on each '
+             'carbon position of each {C, N}^6 Kekule ring (384), no '
+             'de-duplication of spellings',
     'thorough': 'shipped: M(4) C/O with radicals + closed-shell M(5); '
                 'synthetic: all 255 subsets of the 8-pattern pool x 5 x 4 on '
                 'M(3)+8; third wave: 255 subsets x 4 name-sharing variants '
                 'x 3 remap variants (3060 schemes) and 64 subsets x 3 x 7 x 4 '
                 '(5376 schemes) on M(3)+8; the 97 substituted ethenes as in '
-                'quick'}
+                'quick; fourth wave: the six-ring spellings of quick plus ring '
+                'atoms {C, N, O}^6 x the 18 ring-bond words over {single, '
+                'double}^6 without adjacent double bonds, kept when RDKit '
+                'accepts the valences (4591 spellings in all)'}
 RULE = ('every (scheme, molecule) pair is decomposed by the implementation and '
         'by the reference interpreter; compared: success vs PatternMatchError, '
         'the total dictionary (1e-9) and - through a harness-side wrapper of '
@@ -76,9 +95,13 @@ MANIFEST = dict(
          '(one / two / three targets, coefficients 0, -1, 0.5, 1, 2, 3, a '
          'target named twice) on a group and on correction descriptors; the shipped '
          'schemes are also run on all substituted ethenes over '
-         '{H, Me, Et, tBu} with and without E/Z marks.',
+         '{H, Me, Et, tBu} with and without E/Z marks, and on six-membered '
+         'rings enumerated as words over the ring positions (atoms {C, N}, '
+         'bonds {single, double}, one methyl at each position), each word '
+         'written from its first position so that every ring atom of every '
+         'constitution is the first written one in some spelling.',
     note='Molecules larger than the enumeration bound only through the '
-         'curated list and the substituted-ethene family.',
+         'curated list, the substituted-ethene and the six-ring families.',
     ref='5/C02')
 
 _CAPTURE = {'mol': None, 'installed': None}
@@ -303,6 +326,14 @@ def run_ethenes(R, name, i, n):
                 dict(kind='shipped', scheme=name, smiles=smi))
 
 
+def run_sixrings(R, name, i, n, tier):
+    """Family Z: a shipped scheme on the six-ring spellings."""
+    impl, S = shipped(name)
+    for smi in W4.six_rings(tier)[i::n]:
+        compare(R, 'sixring/' + name, impl, S, smi,
+                dict(kind='sixring', scheme=name, smiles=smi))
+
+
 def shards(tier, seed):
     out = []
     for name in SD.distinct_schemes():
@@ -321,6 +352,10 @@ def shards(tier, seed):
     for name in SD.distinct_schemes():
         for i in range(2):
             out.append(('ethenes', name, i, 2))
+    nch = 4 if tier == 'quick' else 24
+    for name in SD.distinct_schemes():
+        for i in range(nch):
+            out.append(('sixrings', name, i, nch))
     return out
 
 
@@ -335,6 +370,8 @@ def run_shard(shard, tier):
         run_w3_synthetic(R, W3.schemes(tier)[shard[1]::shard[2]], tier)
     elif shard[0] == 'ethenes':
         run_ethenes(R, shard[1], shard[2], shard[3])
+    elif shard[0] == 'sixrings':
+        run_sixrings(R, shard[1], shard[2], shard[3], tier)
     else:
         descs = list(SD.synthetic_schemes(tier))[shard[1]::shard[2]]
         run_synthetic(R, descs, tier)
@@ -347,6 +384,9 @@ def replay(w):
     R = Result()
     if w['kind'] == 'shipped':
         run_shipped(R, w['scheme'], 0, 1, 'quick', only=w['smiles'])
+    elif w['kind'] == 'sixring':
+        impl, S = shipped(w['scheme'])
+        compare(R, 'sixring/' + w['scheme'], impl, S, w['smiles'], w)
     elif w['kind'] == 'library':
         lib = libs.load(w['scheme'])
         S = SR.load_scheme(SD.scheme_path(w['scheme']))
